@@ -191,6 +191,12 @@ func (r *Report) Finish(minDistinct int) int {
 	defer r.mu.Unlock()
 	evDir := filepath.Join(r.VerifDir, "evidence")
 	os.MkdirAll(filepath.Join(evDir, "replay"), 0755)
+	// replay files of earlier runs of this check and tier are stale
+	if old, err := filepath.Glob(filepath.Join(evDir, "replay", r.ID+"-*-"+r.Tier+".json")); err == nil {
+		for _, f := range old {
+			os.Remove(f)
+		}
+	}
 	for i := range r.violations {
 		v := &r.violations[i]
 		name := fmt.Sprintf("%s-%s-%s.json", r.ID, sanitize(v.Key), r.Tier)
